@@ -231,7 +231,15 @@ impl<S: PageSize> Iterator for PhysFrameRangeInclusive<S> {
     fn next(&mut self) -> Option<Self::Item> {
         if self.start <= self.end {
             let frame = self.start;
-            self.start += 1;
+
+            // If the end of the inclusive range is the last frame of the physical address space,
+            // incrementing start would leave it. In that case we decrement end instead.
+            let max_frame_addr = PhysAddr::new_truncate(u64::MAX).align_down(S::SIZE);
+            if self.start.start_address() < max_frame_addr {
+                self.start += 1;
+            } else {
+                self.end -= 1;
+            }
             Some(frame)
         } else {
             None
